@@ -77,6 +77,10 @@ func init() {
 			b("https://bar.com/$path", "", "", "99999999999999999999", "foo.com", "/x"), // D27
 			b("https://bar.com/$path", "", "", "200", "foo.com", "/x"),
 			b("https://bar.com/$path", "", "", "abc", "foo.com", "/x"),
+			b("https://bar.com/$path", "", "", "399", "foo.com", "/x"), // the documented upper bound is a configured status
+			b("https://bar.com/$path", "", "", "350", "foo.com", "/x"), // a 3xx code without a name in net/http
+			b("https://bar.com/$path", "", "", "+308", "foo.com", "/x"),
+			b("https://bar.com/$path", "", "", "-301", "foo.com", "/x"),
 			b("https://bar.com$path", "/foo", "", "301", "foo.com", "/foo"),
 			b("https://bar.com$path", "/a", "", "301", "foo.com", "/ab"),
 			b("https://$host/$path", "", "", "301", "bücher.example", "/é/%C3%A9?x=é"),
